@@ -19,7 +19,11 @@ let parse_plan s =
 
 (* ---- stores *)
 let root_parent = n_of_hex "ffffffffffff"
-let build_blocks tree =
+let build_blocks tree_fin =
+  let tree, fin = (match String.index_opt tree_fin '@' with
+    | Some i -> (String.sub tree_fin 0 i,
+                 Some (int_of_n (n_of_hex (String.sub tree_fin (i + 1) (String.length tree_fin - i - 1)))))
+    | None -> (tree_fin, None)) in
   let blocks = ref [ { b_hash = N0; b_parent = root_parent; b_number = N0; b_avail = n_of_i 3 } ] in
   let numbers = Hashtbl.create 64 in
   Hashtbl.replace numbers 0 0;
@@ -41,7 +45,18 @@ let build_blocks tree =
           parent := id; incr next
         done
       | _ -> fail "bad segment %s" seg) (String.split_on_char ';' tree);
-  (List.rev !blocks, numbers, !forks)
+  let all = List.rev !blocks in
+  (* finalisation prunes every block that is neither an ancestor nor a descendant of the
+     finalised block *)
+  let kept = (match fin with
+    | None -> all
+    | Some f ->
+      let parent = Hashtbl.create 64 in
+      List.iter (fun b -> Hashtbl.replace parent (int_of_n b.b_hash) (int_of_n b.b_parent)) all;
+      let rec is_anc a d = (* a is an ancestor of (or equal to) d *)
+        a = d || (d <> 0 && Hashtbl.mem parent d && is_anc a (Hashtbl.find parent d)) in
+      List.filter (fun b -> let i = int_of_n b.b_hash in is_anc i f || is_anc f i) all) in
+  (kept, numbers, !forks + (match fin with Some _ -> 1000 | None -> 0))
 
 let store_cache : (string * (blk list * (int, int) Hashtbl.t * int)) option ref = ref None
 let blocks_of tree =
@@ -122,7 +137,8 @@ let check inp obs =
        let tags = String.concat "," (List.filter (fun x -> x <> "") [
          "serve"; "serve-" ^ dname ^ "-" ^ (if byhash then "hash" else "num") ^ "-" ^ cls;
          (if onfork then "start-on-fork" else "");
-         (if forks > 0 then "tree-with-forks" else "tree-linear");
+         (if forks mod 1000 > 0 then "tree-with-forks" else "tree-linear");
+         (if forks >= 1000 then "finalised-prefix" else "");
          (if nblocks = int_of_n max_resp then "full-128" else "");
          (if int_of_n seen > 0 then "repeated" else "");
          (if not wf then "store-not-wf" else "") ]) in
